@@ -60,6 +60,9 @@ REQUIRED_THEOREMS = [
     # round 5: split_double_boundary_edges_triangles translated + modelled (was oracle-only); components through the fan
     "split_double_boundary_follows_source", "split_double_boundary_opens_a_block", "split_double_boundary_source",
     "components_preserved_fan", "components_preserved_triangulate", "components_preserved_split_double_boundary",
+    # round 6: 1->3 quads: orientation / border sides / components; components through 1->6
+    "manifold_preserved_quads3", "border_preserved_quads3", "components_preserved_quads3_sub6", "quads3_source",
+    "manifold_quads_triangulate_iff", "manifold_preserved_sub6_partial",
 ]
 TRUSTED = [
     "Lean 4.33.0 kernel; axioms ⊆ {propext, Classical.choice, Quot.sound}",
